@@ -51,3 +51,16 @@ pub fn verif_br_vec_to_set(v: Vec<String>) -> (r: BTreeSet<String>)
 pub fn verif_br_set_eq(a: &BTreeSet<String>, b: &BTreeSet<String>) -> (r: bool)
     ensures r == br_set_same(a@, b@),
 { a == b }
+
+/// R9 target for `A.iter().cartesian_product(B.iter()).collect_vec()` (crate itertools, trait `Itertools`).
+/// itertools documentation of `cartesian_product`: "Return an iterator adaptor that iterates over the cartesian product of the
+/// element sets of two iterators `self` and `J`.  Iterator element type is `(Self::Item, J::Item)`."; of `collect_vec`:
+/// "`.collect_vec()` is simply a type specialization of `Iterator::collect`" into a `Vec`; std documentation of
+/// `BTreeSet::iter`: "Gets an iterator that visits the elements in the `BTreeSet`" (items are references to the elements).
+/// Stated as weakly as that reads (br_cart_of, spec/bricks.rs): every entry of the vector is a pair (element of `a`, element
+/// of `b`), and every such pair occurs.  Nothing about order or multiplicity.  (The body cannot name itertools here.)
+#[verifier::external_body]
+pub fn verif_br_cartesian_product<'a>(a: &'a BTreeSet<String>, b: &'a BTreeSet<String>) -> (r: Vec<(&'a String, &'a String)>)
+    ensures
+        br_cart_of(r@, a@, b@),
+{ unimplemented!() }
